@@ -1173,8 +1173,8 @@ class Exec:
             return self.exec_block(s.body if c else s.orelse, st)
         c = zbool(c)
         out = []
-        s1 = st.copy(); s1.assume(c)
-        s2 = st; s2.assume(z3.Not(c))
+        s1 = st.copy(); s1.assume(c, tag="path")
+        s2 = st; s2.assume(z3.Not(c), tag="path")
         if self.feasible(s1):
             out.extend(self.exec_block(s.body, s1))
         if self.feasible(s2):
